@@ -375,6 +375,20 @@ class WeakFormParabolic(WeakFormScn):
         return {nm: np.atleast_1d(_take(simu.Result(nm))) for nm in self.results}
 
 
+class WeakFormMixed(WeakFormParabolic):
+    """steady state first (elliptic), then the parabolic scheme is switched on (prefix mixed): the stored iterations hold different fields"""
+    name = "weakforms_mixed"
+    dynamic = False
+    results = ["u"]
+    skip_ops = ("replacemesh",)
+
+    def setup(self, simu):
+        pass
+
+    def to_dynamic(self, simu):
+        simu.Solver_Set_Parabolic_Algorithm(0.1, 0.5)
+
+
 class WeakFormHyperbolic(WeakFormParabolic):
     name = "weakforms_hyperbolic"
     results = ["u", "v", "a"]
@@ -388,7 +402,7 @@ class WeakFormHyperbolic(WeakFormParabolic):
 
 
 SCENARIOS = {s.name: s for s in (ElasticStatic, ElasticNewmark, ThermalStatic, ThermalParabolic, BeamStatic, BeamNewmark, PhaseFieldHistory,
-                                 PhaseFieldHistoryDamage, InElasticScn, HyperScn, WeakFormScn, WeakFormParabolic, WeakFormHyperbolic)}
+                                 PhaseFieldHistoryDamage, InElasticScn, HyperScn, WeakFormScn, WeakFormParabolic, WeakFormHyperbolic, WeakFormMixed)}
 
 
 MESH_OPS = ["save", "translate", "rotate", "symmetry", "settag", "partition"]
